@@ -15,7 +15,7 @@ RULE = ("every ordered pair of Pauli strings on <=3 qubits x operations {*,+,-},
         "(for products of terms additionally counted: pairs with an anticommuting factor); distinct = canonical case json")
 ASSUMPTIONS = ["numpy dense arithmetic is correct", "PauliTerm.coefficient/.operations and PauliSum.terms are the public observables of an operator",
                "coefficients are far (>=0.25) from the library's 1e-8 tolerance edge"]
-BOUNDS = {"quick": {"qubits": 3, "strings": "16 on {0,1} + 4 on {2} (all ordered pairs) + 64x64 products", "sum_terms": 2, "powers": "0..4"},
+BOUNDS = {"quick": {"qubits": 3, "strings": "16 on {0,1} + 4 on {2} (all ordered pairs) + 64x64 products", "sum_terms": 2, "powers": "0..4 (unit-modulus coefficients: 2..8)"},
           "thorough": {"qubits": 3, "strings": "all 64 (all 4096 ordered pairs x 3 ops)", "sum_terms": 3, "powers": "0..4"}}
 N = 4
 ATOL = 1e-9
@@ -212,7 +212,7 @@ def edge_case(case):
     return {"ok": True, "nt": True, "ops": k, "out": "edges"}
 
 
-FUNCS = {"equality_edges": edge_case, "construction": construction_case, "term_pairs": binop, "term_coeffs": binop, "scalars": binop, "powers": powop, "sum_pairs": binop, "mixed": binop,
+FUNCS = {"equality_edges": edge_case, "construction": construction_case, "term_pairs": binop, "term_coeffs": binop, "scalars": binop, "near_operands": binop, "powers": powop, "sum_pairs": binop, "mixed": binop,
          "simplify": simplify_case, "equality": eq_case}
 
 PAULIS = "IXYZ"
@@ -278,6 +278,9 @@ def run(run):
     # --- powers
     allstr = strings([0, 1, 2]) if thorough else strings([0, 1])
     cases = [{"a": T(c, s), "k": k} for s in allstr for c in (1.0, [0, 2], -0.5) for k in (0, 1, 2, 3, 4, -1, 1.5)]
+    # unit-modulus coefficients that are not fourth roots of unity, exponents up to 8 (c**k must not be reduced like a Pauli-group element)
+    cases += [{"a": T(c, s), "k": k} for s in allstr for c in ([0.6, 0.8], [0.6, -0.8], [-0.8, 0.6], [0, 1], -1.0, [0.28, 0.96]) for k in (2, 3, 4, 5, 6, 7, 8)]
+    cases += [{"a": {"s": [[c, st]]}, "k": k} for st in ({"0": "X", "1": "Z"}, {}) for c in ([0.6, 0.8], [0, 1]) for k in (4, 5, 6)]
     cases += [{"a": {"s": s}, "k": k} for s in sums(3 if thorough else 2) for k in (0, 1, 2, 3, -1, 2.0)]
     secs.append(Section("powers", cases, powop, desc="a**k for k in 0..4 (terms) / 0..3 (sums); -1, 1.5, 2.0 must be refused"))
     # --- sums
@@ -292,6 +295,20 @@ def run(run):
                 cases.append({"op": op, "a": {"t": t}, "b": {"s": s}})
                 cases.append({"op": op, "a": {"s": s}, "b": {"t": t}})
     secs.append(Section("mixed", cases, binop, desc="term (op) sum and sum (op) term"))
+    # --- nearly equal operands: coefficients differing by 1e-7 .. 1e-5 relative (well above the 1e-8 zero tolerance, below numpy's default 1e-5
+    #     closeness): a - b and a + (-b) must still denote the (small, non-zero) matrix difference
+    cases = []
+    near_strings = [{"0": "X"}, {"0": "Y", "1": "Z"}, {}]
+    for st in near_strings:
+        for c, d in ((1.0, 1.000001), (1.000001, 1.0), (1000, 1000.005), (2.5, 2.5000001), ([1, 1], [1, 1.000001]), ([0, 2], [1e-6, 2]), (0.001, 0.0010001), (-0.5, -0.500002)):
+            for op in ("sub", "add", "mul"):
+                cases.append({"op": op, "a": T(c, st), "b": T(d, st)})
+                cases.append({"op": op, "a": {"s": [[c, st], [0.5, {"2": "Z"}]]}, "b": {"s": [[0.5, {"2": "Z"}], [d, st]]}})
+                cases.append({"op": op, "a": T(c, st), "b": {"s": [[d, st]]}})
+                cases.append({"op": op, "a": {"s": [[c, st]]}, "b": T(d, st)})
+            cases.append({"op": "sub", "a": {"n": c}, "b": T(d, {})})
+            cases.append({"op": "sub", "a": T(c, {}), "b": {"n": d}})
+    secs.append(Section("near_operands", cases, binop, desc="operands whose like coefficients differ by 1e-7..1e-5 relative: + - * still denote the matrix operation (to 1e-9)"))
     # --- simplify: ordered lists (order matters for like-term merging)
     pool = term_pool()
     L = 3 if thorough else 2
